@@ -5,6 +5,7 @@ from ..rules_k import K10_K11_codec, K12_local_complementation
 
 def run(tree, rep, tier):
     flow = Flow(tree)
+    flow.describe(rep)
     K10_K11_codec(rep, flow, tier)
     K12_local_complementation(rep, flow, tier)
     rep.decided += ["compress / decompress enumerate the same affine (i,j) -> bit bijection, equal to the documented layout; hence mutually inverse on 0..2^(n(n-1)/2)-1 (K10, K11)"]
